@@ -183,8 +183,18 @@ def cases(tier):
             new("ObjectiveMinimizeMakespan", "i"), new("ObjectiveMinimizeFlowtime", "i"), new("ObjectivePriorities", "i"), new("ObjectiveTasksStartLatest", "i"),
             new("ObjectiveTasksStartEarliest", "i"), new("ObjectiveMinimizeGreatestStartTime", "i"), new("ObjectiveMaximizeResourceUtilization", "i", resource=R("w")),
             new("ObjectiveMinimizeResourceCost", "i", list_of_resources=[R("w")])]
+    inds += [new("ObjectiveMinimizeFlowtimeSingleResource", "i", resource=R("w")), new("ObjectiveMinimizeFlowtimeSingleResource", "i", resource=R("w"), time_interval=(0, 3)),
+             new("ObjectiveMinimizeFlowtime", "i", list_of_tasks=[R("a")]), new("ObjectiveTasksStartLatest", "i", list_of_tasks=[R("a"), R("o")]),
+             new("ObjectiveMinimizeGreatestStartTime", "i", list_of_tasks=[R("a")]), new("IndicatorTardiness", "i", list_of_tasks=[R("dd1")]),
+             new("IndicatorEarliness", "i", list_of_tasks=[R("dd1")]), new("IndicatorNumberOfTardyTasks", "i", list_of_tasks=[R("dd1")]),
+             new("IndicatorMaximumLateness", "i", list_of_tasks=[R("dd1")])]
+    ctx_i = CTX + [fixed("dd1", 1, due_date=3, due_date_is_deadline=False)]
     for i_ in inds:
-        add("well-formed:" + i_["cls"], i_, A)
+        add("well-formed:" + i_["cls"], i_, A, ctx=ctx_i)
+    for bcls in ("NonConcurrentBuffer", "ConcurrentBuffer"):
+        for icls in ("IndicatorMaxBufferLevel", "IndicatorMinBufferLevel", "ObjectiveMaximizeMaxBufferLevel", "ObjectiveMinimizeMaxBufferLevel"):
+            add("well-formed:" + icls, [new(bcls, "bf", name="bf", initial_level=1), con("TaskLoadBuffer", "l", task=R("a"), buffer=R("bf"), quantity=1),
+                                         new(icls, "i", buffer=R("bf"))], A)
     add("well-formed:IndicatorTarget", [new("IndicatorResourceIdle", "i", resource=R("w")), con("IndicatorTarget", "c", indicator=R("i"), value=0)], A)
     add("well-formed:IndicatorBounds", [new("IndicatorResourceIdle", "i", resource=R("w")), con("IndicatorBounds", "c", indicator=R("i"), upper_bound=2)], A)
     # ---- requirements
